@@ -270,7 +270,9 @@ TRANSLATORS = {"scoring": ([("ScoringGen.v", "scoring")], "ScoringGenProof.v"),
                "mwm": ([("MwmGen.v", "mwm")], "MwmGenProof.v"),
                "rsd": ([("RsdGen.v", "rsd")], "RsdGenProof.v"),
                "gsres": ([("GsResGen.v", "gs_res")], "GsResGenProof.v"),
-               "gshosp": ([("GsResGen.v", "gs_res"), ("GsHospGen.v", "gs_hosp")], "GsHospGenProof.v")}
+               "gshosp": ([("GsResGen.v", "gs_res"), ("GsHospGen.v", "gs_hosp")], "GsHospGenProof.v"),
+               "elicitvoting": ([("ScoringGen.v", "scoring"), ("ElicitVoteGen.v", "elicitvoting")], "ElicitVoteGenProof.v"),
+               "irvsmall": ([("IrvSmallGen.v", "irvsmall")], "IrvSmallGenProof.v")}
 
 def translator_obligation(name):
     """regenerate the model of <name> from /repo's current source (harness/translate.py), compile it, and re-check the
